@@ -21,7 +21,7 @@ class LostAnchor(Exception):
     pass
 
 
-KEEP_DERIVES = {"Clone", "Copy", "PartialEq", "Eq"}
+KEEP_DERIVES = {"Clone", "Copy"}
 
 
 class Seg:
@@ -132,7 +132,7 @@ class Builder:
         cmd = parts[0]
         if cmd == "source":
             self.add_source(parts[1], parts[2])
-        elif cmd in ("default-tags", "tags"):
+        elif cmd in ("default-tags", "tags", "verus-flags"):
             pass  # read by vx.unit.unit_tags
         elif cmd == "include":
             ip = os.path.normpath(os.path.join(self.unit_dir, parts[1]))
@@ -195,6 +195,15 @@ class Builder:
                 o["deep"] = True
             elif p[0] == "attr":
                 o["attr"].append(p[1])
+            elif p[0] == "insert":
+                o.setdefault("insert", []).append(p[1])
+            elif p[0] == "replace":
+                mm = re.match(r"`(.*?)`\s*=>\s*`(.*?)`\s*$", p[1])
+                o.setdefault("replace", []).append((mm.group(1), mm.group(2)))
+            elif p[0] == "noderive":
+                o["noderive"] = True
+            elif p[0] == "derive":
+                o.setdefault("derive", []).extend(p[1].split())
             elif p[0] == "rule":
                 o.setdefault("rules", []).append(p[1].split())
             elif p[0] == "header":
@@ -205,10 +214,14 @@ class Builder:
         kw = re.match(rs.QUALS + r"(" + rs.ITEM_KW + r")", it.m[it.start:]).group(1)
         self.report["items"].append({"file": rel, "item": rs.norm(sel), "line": rs.line_of(src, it.start)})
         attrs = filter_attrs(it.attrs(), self.report)
+        if o.get("noderive"):
+            attrs = [x for x in attrs if not x.startswith("#[derive")]
         for a in attrs + o["attr"]:
             self.emit(a + "\n", "unit")
+        if o.get("derive"):
+            self.emit("#[derive(%s)]\n" % ", ".join(o["derive"]), "unit")
         if kw in ("struct", "enum", "union"):
-            self.emit_plain_item(rel, src, m, it, strip_inner_attrs=True)
+            self.emit_plain_item(rel, src, m, it, strip_inner_attrs=True, replace=o.get("replace"))
         elif kw in ("const", "static", "type", "use", "mod"):
             self.emit_plain_item(rel, src, m, it)
         elif kw == "fn":
@@ -228,9 +241,16 @@ class Builder:
             return container_type(parent) + "::" + name
         return name
 
-    def emit_plain_item(self, rel, src, m, it, strip_inner_attrs=False):
+    def emit_plain_item(self, rel, src, m, it, strip_inner_attrs=False, replace=None):
         a, b = it.start, it.end
         edits = []
+        for (old, new) in (replace or []):
+            occ = [mm.start() for mm in re.finditer(re.escape(old), src[a:b])]
+            if not occ:
+                raise LostAnchor("%s: replace site `%s` not found" % (rel, old))
+            for pp in occ:
+                edits.append(Edit(a + pp, a + pp + len(old), [Seg(new, "repo", file=rel, line=rs.line_of(src, a + pp))]))
+                self.count("type-path-replace")
         if strip_inner_attrs and it.body_open is not None:
             for mm in re.finditer(r"#\s*\[", m[it.body_open:b]):
                 s = it.body_open + mm.start()
@@ -267,6 +287,8 @@ class Builder:
             self.count("header-override")
         self.emit(hdr, "repo", file=rel, line=rs.line_of(src, it.start))
         self.emit("{", "repo", file=rel, line=rs.line_of(src, it.body_open))
+        for ins in o.get("insert", []):
+            self.emit("\n    " + ins, "unit")
         a, b = it.body
         members = []
         for kwm in ("fn", "const", "type"):
@@ -278,7 +300,10 @@ class Builder:
             name = it_name(mem)
             mkw = re.match(rs.QUALS + r"(" + rs.ITEM_KW + r")", m[mem.start:]).group(1)
             # text between members (comments / blank lines), minus the attrs of this member
-            self.emit(src[pos:mem.attr_start], "repo", file=rel, line=rs.line_of(src, pos))
+            # doc comments between members become plain comments (a dropped member must not leave a
+            # dangling doc comment behind)
+            gap = re.sub(r"(?m)^(\s*)///", r"\1// ", src[pos:mem.attr_start])
+            self.emit(gap, "repo", file=rel, line=rs.line_of(src, pos))
             pos = mem.end
             if mkw != "fn":
                 self.emit_with_edits(rel, src, mem.start, mem.end, [], fn=None)
@@ -291,7 +316,7 @@ class Builder:
                 keys.append("%s for %s::%s" % (ctrait, ctype, name))
             keys.append("%s::%s" % (ctype, name))
             self.emit_fn(rel, src, m, mem, keys, o)
-        self.emit(src[pos:b], "repo", file=rel, line=rs.line_of(src, pos))
+        self.emit(re.sub(r"(?m)^(\s*)///", r"\1// ", src[pos:b]), "repo", file=rel, line=rs.line_of(src, pos))
         self.emit("}\n", "repo", file=rel, line=rs.line_of(src, it.end - 1))
 
     # ------------------------------------------------------------------ functions
